@@ -466,6 +466,14 @@ def gen_headers_adversarial(rng, n):
             post = [rand_htag(rng) for _ in range(rng.randrange(0, 3))]
             out.append(hsweep(header(pre + [t2] + post, arch=rng.choice([0, 4]))))
             out.append(hsweep(header([t2])))
+    # declared lengths below / around the 16-byte basic header, each with a checksum that is valid for that length
+    for L in list(range(0, 33)) + [40]:
+        for arch in (0, 4):
+            region = bytearray(header([rand_htag(rng, 3)], arch=arch))
+            assert L <= len(region)
+            region[8:12] = u32(L)
+            region[12:16] = u32((-(HMAGIC + arch + L)) % (1 << 32))
+            out.append(hsweep(bytes(region)))
     for _ in range(n):
         tags = [rand_htag(rng) for _ in range(rng.randrange(0, 5))]
         region = bytearray(header(tags))
